@@ -195,6 +195,9 @@ def run_property(pid, tier="quick", sources=None, rules_only=None, write=True, q
             ctx.ob("rule:" + rid, "-", ERROR, "internal error in rule: %r (%s)" % (e, tb[-3].strip() if len(tb) >= 3 else ""))
         if len(ctx.obs) == n0:
             ctx.ob("rule:" + rid, "-", ERROR, "rule produced no obligation (vacuous)")
+    # positive controls for zero-expected rules ---------------------------------
+    if not rules_only:
+        run_controls(ctx, pid, [rid for rid, _ in todo])
     # verdict ----------------------------------------------------------
     known = [k for k in load_known() if k.get("property") == pid]
     open_keys = {(k["rule"], k["construct"]) for k in known if k.get("status") == "open"}
@@ -234,6 +237,33 @@ def run_property(pid, tier="quick", sources=None, rules_only=None, write=True, q
               % (pid, tier, sum(1 for o in ctx.obs if o.verdict != INFO), nd, len(new_viol), len(known_hit),
                  len(incs), len(errs), sum(1 for o in ctx.obs if o.verdict == INFO), time.time() - t0, code))
     return code, ctx
+
+
+def run_controls(ctx, pid, rule_ids):
+    """A rule that expects zero findings on py-trie must fire on its synthetic control."""
+    from .controls import CONTROLS
+    for rid in rule_ids:
+        ent = CONTROLS.get(rid)
+        if ent is None or ent[0] != pid:
+            continue
+        _, sources, want = ent
+        try:
+            ctl = Ctx(sources, ctx.tier)
+            ctl.cur_rule = rid
+            kw = dict(next(k for r, k in PROP_RULES[pid] if r == rid))
+            try:
+                RULES[rid](ctl, pid, **kw)
+            except AnalysisError:
+                pass  # anchors of the real package are absent in the control: expected
+            fired = any(o.verdict == VIOLATION and want in o.construct for o in ctl.obs)
+        except Exception as e:  # control must never break the check silently
+            fired = False
+            want = "%s (control crashed: %r)" % (want, e)
+        ctx.cur_rule = rid
+        if fired:
+            ctx.ob("control:" + rid, "pta/controls", DISCHARGED, "positive control fired: the rule reports `%s` on the synthetic violating package" % want, False)
+        else:
+            ctx.ob("control:" + rid, "pta/controls", ERROR, "positive control did NOT fire (`%s`): the rule may be blind" % want)
 
 
 def write_evidence(pid, tier, ctx, new_viol, t0, error=None):
